@@ -318,12 +318,27 @@ def _alarm(signum, frame):  # noqa: U100
     raise _Watchdog()
 
 
+def _limit_memory():
+    """A changed tree may try to allocate absurd grids: make that a MemoryError (a recorded violation) instead of an OOM kill."""
+    try:
+        import resource
+
+        limit = int(float(os.environ.get("VERIF_MEMORY_GIB", "12")) * 2 ** 30)
+        soft, hard = resource.getrlimit(resource.RLIMIT_AS)
+        if hard == resource.RLIM_INFINITY or limit < hard:
+            if soft == resource.RLIM_INFINITY or soft > limit:
+                resource.setrlimit(resource.RLIMIT_AS, (limit, hard))
+    except Exception:  # noqa: BLE001
+        pass
+
+
 def execute(prop_id, tier, seed, shard=None, only_case=None):
     """Run (a shard of) a property's workload under its monitors. Returns the Run."""
     from . import tap as tapmod
 
     boot.ensure_deps()
     boot.import_verde()
+    _limit_memory()
     mod = load_property(prop_id)
     run = Run(prop_id, tier, seed, level=getattr(mod, "LEVEL", "exploration"))
     tap = tapmod.Tap(run)
